@@ -62,7 +62,8 @@ impl Patterns {
     fn iter(&self) -> (it: PatternIter) ensures it.ps == *self, it.i == 0 { unimplemented!() }
 }
 impl PatternIter {
-    // assumed contract of `PatternIter::next`: the patterns in `order`, each with its identifier
+    // contract of `PatternIter::next` (proved of the real function in unit u5_packed_builder with
+    // pat_ord = order@, pat_bytes = pv, pat_count = pv.len()): the patterns in `order`, each with its identifier
     #[verifier::external_body]
     fn next(&mut self) -> (r: Option<(PatternID, Pattern)>)
         ensures final(self).ps == old(self).ps,
